@@ -134,7 +134,11 @@ pub struct PanicInfo {
 impl PanicInfo {
     /// location with the checkout prefix removed, e.g. `savefile/src/lib.rs:1758`
     pub fn site(&self) -> String {
-        let f = self.file.trim_start_matches("/repo/");
+        // the checkout is reached through <verif>/.work/repo (a link to /repo or to a snapshot of it)
+        let f = match self.file.find(".work/repo/") {
+            Some(i) => &self.file[i + ".work/repo/".len()..],
+            None => self.file.trim_start_matches("/repo/"),
+        };
         let f = match f.find(".cargo/registry/src/") {
             Some(i) => {
                 let rest = &f[i + ".cargo/registry/src/".len()..];
